@@ -231,11 +231,14 @@ def run_session(cfg: Dict[str, Any]) -> Dict[str, Any]:
     outpath = pathlib.Path(cfg['outdir']) / f'out-{os.getpid()}-{cfg.get("tag", 0)}.json'
     if outpath.exists():
         outpath.unlink()
-    settings = [BoardSetting(hands=make_hands(dl), dealer=Player(d + 1), vul=Vul(v + 1),
-                             board_id=bid_, dda=dda)
-                for (dl, d, v, bid_, dda) in cfg['boards']]
+    settings = cfg.get('settings_obj')
+    if settings is None:
+        settings = [BoardSetting(hands=make_hands(dl), dealer=Player(d + 1), vul=Vul(v + 1),
+                                 board_id=bid_, dda=dda)
+                    for (dl, d, v, bid_, dda) in cfg['boards']]
+    result_settings = settings
     dec = Decisions()
-    result: Dict[str, Any] = {'verdict': None}
+    result: Dict[str, Any] = {'verdict': None, 'settings_obj': result_settings}
     replicas: List[Dict[str, Any]] = []
     client_info: List[Dict[str, Any]] = []
     teams = cfg.get('teams', ('teamNS', 'teamEW'))
